@@ -4,7 +4,7 @@ import re
 from fractions import Fraction
 
 from .facts import walk, strip_all, call_args, is_call
-from .terms import Evaluator, show, subterms, num
+from .terms import Evaluator, show, subterms, num, subst_fold
 from .poly import Poly, Rat, to_rat, NotPolynomial, PI
 from .eigenalg import Elementwise, FieldTypes, CAlg, Undecided, IMAG
 from .rules_c20 import _reduce_roots
@@ -218,6 +218,8 @@ def run(F, R, tier):
     R.undecided = ["numerical equality to 1e-8 with an independently diagonalised evaluation (eigen-solver accuracy)"]
     R.guard(_mssm, F, R)
     R.guard(_mssm_chain, F, R)
+    R.guard(_fresh_spectrum, F, R)
+    R.guard(_no_frozen_statics, F, R)
     R.guard(_thdm, F, R)
     R.guard(_thdm_plumbing, F, R)
     R.guard(_thdm_yukawas, F, R)
@@ -251,11 +253,69 @@ def _is_complex_factory(ft):
     return is_complex
 
 
+def _resolve_zero_guards(t, alg, notes):
+    """`x == 0 ? A : B` (an early return for a vanishing coupling): replaced by B when A equals B at x = 0, i.e. when the
+    special case is the general formula evaluated there; otherwise the special case changes the result -- noted"""
+    if not isinstance(t, tuple) or not t:
+        return t
+    h = t[0]
+    if h == "ite":
+        c, a, b = t[1], _resolve_zero_guards(t[2], alg, notes), _resolve_zero_guards(t[3], alg, notes)
+        x = None
+        if c[0] == "cmp" and c[1] == "==":
+            if c[3][0] == "num" and c[3][1] == 0:
+                x = c[2]
+            elif c[2][0] == "num" and c[2][1] == 0:
+                x = c[3]
+        if x is not None:
+            try:
+                ra = alg.rat(a)
+                if x[0] in ("elem", "field", "sym"):
+                    zeros = [{x: num(0)}]
+                else:
+                    # x = (product of atoms)/(...): it vanishes when one factor of the numerator does
+                    rx = alg.rat(x)
+                    if len(rx.n.t) != 1:
+                        raise NotPolynomial("guard on a sum")
+                    (mono, _c), = rx.n.t.items()
+                    zeros = []
+                    for at, e in mono:
+                        tt = at[1] if isinstance(at, tuple) and at and at[0] == "cplx" else at
+                        if isinstance(tt, tuple) and tt and tt[0] in ("elem", "field", "sym", "call"):
+                            zeros.append({tt: num(0)})
+                    if not zeros:
+                        raise NotPolynomial("guard without atoms")
+                for z in zeros:
+                    b0 = subst_fold(b, z)
+                    rb0 = alg.rat(b0)
+                    if not _zero(ra.n * rb0.d - rb0.n * ra.d):
+                        notes.append("for %s == 0 the code returns %s, the general branch gives %s there" % (
+                            show(x)[:60], show(a)[:60], show(b0)[:100]))
+                        break
+                return b
+            except (NotPolynomial, Undecided):
+                pass
+        return ("ite", c, a, b)
+    if h in ("+", "-", "*", "/"):
+        return (h, _resolve_zero_guards(t[1], alg, notes), _resolve_zero_guards(t[2], alg, notes))
+    if h == "neg":
+        return ("neg", _resolve_zero_guards(t[1], alg, notes))
+    if h == "call":
+        return ("call", t[1], tuple(_resolve_zero_guards(a, alg, notes) for a in t[2]))
+    return t
+
+
 def _compare(R, rid, F, f, code_term, spec, alg, L, label):
+    notes = []
     try:
+        code_term = _resolve_zero_guards(code_term, alg, notes)
         code = alg.rat(code_term)
     except (NotPolynomial, Undecided) as ex:
         R.soft_broken("%s: %s: %s" % (rid, label, ex))
+        return
+    if notes:
+        R.fail(rid, label + " (special case)", F.loc(f), "a special case for a vanishing coupling is not the general formula at that "
+               "point: " + notes[0], key="%s|%s|zero-guard" % (rid, label))
         return
     res = _residual(code, spec)
     ok = res.is_zero()
@@ -530,3 +590,64 @@ def _thdm_yukawas(F, R):
             if bad:
                 ok, why = False, bad[0]
             R.check("T3", ok, name, F.loc(f), why, key="T3|" + name)
+
+
+# masses / mixings the MSSM one-loop formulas read (sector -> calculate function)
+ONE_LOOP_SECTORS = ("Chi", "Cha", "Sm", "SvmL")
+
+
+def _fresh_spectrum(F, R):
+    """the formulas read MChi/ZN, MCha/UM/UP, MSm/ZM, MSvmL: after a public operation has written a Lagrangian parameter that
+    enters one of these mass matrices, that sector must be recomputed before the operation returns (typestate 'fresh')"""
+    from .rules_c16 import FieldFlow
+    R.rule("M4", "every model operation that rewrites parameters of the neutralino / chargino / smuon / sneutrino mass matrices "
+                 "(Yukawa conversions, on-shell conversion) recomputes those sectors afterwards: the one-loop formulas never see "
+                 "masses or mixing matrices that are stale with respect to the couplings they are combined with", 8)
+    FW = FieldFlow(F)
+    cls = "gm2calc::MSSMNoFV_onshell_mass_eigenstates::"
+    inputs, calc_mg = {}, {}
+    for sct in ONE_LOOP_SECTORS:
+        g = F.fn(cls + "get_mass_matrix_" + sct)
+        inputs[sct] = set(FW.reads(g["body"]))
+        calc_mg[sct] = F.fn(cls + "calculate_M" + sct)["mg"]
+    ops = ["convert_to_non_tan_beta_resummed", "calculate_masses", "convert_to_onshell"]
+    for op in ops:
+        for f in F.by_name.get("gm2calc::MSSMNoFV_onshell::" + op, []):
+            stmts = f["body"].get("c", [])
+            for sct in ONE_LOOP_SECTORS:
+                last_w, who = -1, None
+                for i, st in enumerate(stmts):
+                    w = FW.writes(st) & inputs[sct]
+                    if w:
+                        last_w, who = i, sorted(x.split("::")[-1] for x in w)
+                if last_w < 0:
+                    continue
+                recalced = any(calc_mg[sct] in FW.stmt_closure(st) or
+                               any(n.get("mg") == calc_mg[sct] for n in walk(st) if is_call(n))
+                               for st in stmts[last_w:])
+                sig = "%s(%s)" % (op, ", ".join(p["name"] or "" for p in f["params"]))
+                R.check("M4", recalced, "%s: %s recomputed after the last write of %s" % (sig, sct, ", ".join(who)),
+                        F.loc(f, stmts[last_w]),
+                        "%s writes %s, which enter(s) the %s mass matrix, and returns without recomputing calculate_M%s: the one-loop "
+                        "formulas combine the new couplings with the old masses / mixing matrix of that sector" % (op, ", ".join(who), sct, sct),
+                        key="M4|%s|%s|%d" % (op, sct, len(f["params"])))
+
+
+def _no_frozen_statics(F, R):
+    R.rule("T4", "no static-storage variable of the one-loop translation units is initialised from run-time values (a `static const` "
+                 "built from the first model's parameters would be re-used for every later model)", 4)
+    files = ("src/THDM/gm2_1loop_H.cpp", "src/THDM/gm2_1loop.cpp", "src/MSSMNoFV/gm2_1loop.cpp")
+    for key, g in sorted(F.globals.items()):
+        if g["file"] not in files:
+            continue
+        ini = g.get("init")
+        bad = None
+        if ini is not None:
+            for n in walk(ini):
+                if (n.get("k") == "DeclRefExpr" and n.get("rk") in ("Param", "Var")) or n.get("k") == "CXXThisExpr":
+                    bad = n
+                    break
+        ok = bad is None and (g["const"] or g["constexpr"] or str(g["t"]).startswith("const "))
+        R.check("T4", ok, "%s is a compile-time style constant" % g["name"].split("::")[-1], "%s:%s" % (g["file"], g["line"]),
+                "static `%s` depends on run-time data (%s): the value of the first evaluation is frozen into all later ones"
+                % (g["name"].split("::")[-1], (bad.get("n") if bad else "writable")), key="T4|" + g["name"])
